@@ -26,7 +26,7 @@
          chk_C05 ifs h wakes (map obs_of (run_history ifs h)) = true ). *)
 From Coq Require Import List NArith Bool.
 From Mdns Require Import Res Bytes Rec Wire Txt Cache Browser C03Spec BrowserSpec CacheProofs BrowserStepProofs
-  BrowserExamples.
+  SpecTrackProofs BrowserExamples.
 Import ListNotations.
 Open Scope N_scope.
 
@@ -109,6 +109,15 @@ Proof. exact verify_questions. Qed.
 Theorem C05_answer_restores : forall e r now, e_expires (reset_ttl e r now) = now + 1000 * r_ttl r.
 Proof. exact reset_ttl_expires. Qed.
 
+(* History level: the "spec cache" that chk_C05 replays from the history (cache component only)
+   IS the model's cache after every history - same buckets, same records (name, type, class,
+   cache-flush bit, TTL, rdata, created, expires, interface), same browsed types; only refresh
+   marks may differ.  So what the checker calls live (alive_strong / alive_weak / death_time)
+   is a statement about the model's state, for ALL histories (no well-formedness needed). *)
+Theorem C05_spec_cache_is_model_cache : forall ifs h,
+  tracks (model_after ifs init_st h) (spec_after ifs init_spec h).
+Proof. exact spec_tracks_model. Qed.
+
 (* The history-level statement is false of the faithful model: the PTR is delivered a second
    time with the cache-flush bit and TTL 2 s; ServiceRemoved at +2 s although the first PTR, the
    SRV and the address are live (finding C05-ptr-variant-expiry). *)
@@ -146,6 +155,7 @@ Print Assumptions C05_verify_shortens.
 Print Assumptions C05_verify_min.
 Print Assumptions C05_verify_questions.
 Print Assumptions C05_answer_restores.
+Print Assumptions C05_spec_cache_is_model_cache.
 Print Assumptions C05_removed_on_time_refuted.
 Print Assumptions C05_example.
 Print Assumptions C05_example_two_names.
